@@ -289,7 +289,9 @@ def s_module_list_naming(ctx):
         I.call(I.getattr(m, "__init__"), list(args))
         return m
     root = mk(_module.Module, SStr(r))
-    leaf = mk(_module.Module, None)
+    # the child may already carry a name of its own (name=..., or inherited from an earlier owner): inside a Sequential it is
+    # addressed by its index all the same (state_dict keys are '<attr>.<i>.<param>')
+    leaf = mk(_module.Module, ["fc_custom", None][ctx.choose(2, "leaf has no name of its own")])
     param = SObj(_parameter.Parameter, "param")
     param.fields.update(name=None, const_value=Opaque("data"), _realized=False)
     I.call(I.getattr(leaf, "__setattr__"), [SStr(p), param])
@@ -448,7 +450,8 @@ def s_sequential_naming(ctx):
         I.call(I.getattr(m, "__init__"), list(args))
         return m
     root = mk(_module.Module, SStr(r))
-    leaf = mk(_module.Module, None)
+    # the child may already carry a name of its own: inside a Sequential it is addressed by its index all the same
+    leaf = mk(_module.Module, ["fc_custom", None][ctx.choose(2, "leaf has no name of its own")])
     param = SObj(_parameter.Parameter, "param")
     param.fields.update(name=None, const_value=Opaque("data"), _realized=False)
     I.call(I.getattr(leaf, "__setattr__"), [SStr(p), param])
